@@ -13,3 +13,19 @@ fn c09_char_cell_size() {
     kani::cover!(s.width == 0);
     std::mem::forget(cell);
 }
+
+fn stub_fallback_str(_g: &crate::Glyph) -> &str { "a\u{1F973}" }   // a narrow letter and a double-width emoji
+
+//# kind=bounded tier=quick props=C09 fns="Cell::size" bound="one glyph with the fixed fallback text `a` + U+1F973 on a terminal without glyph support" | the size measured for a glyph that will be written as its fallback characters is one row and the SUM of the display widths of those characters (1 + 2), i.e. what writing them one by one occupies
+#[kani::proof]
+#[kani::unwind(8)]
+#[kani::stub(crate::Glyph::fallback_str, stub_fallback_str)]
+fn c09_glyph_fallback_size() {
+    let cell = Cell::new_glyph(Face::default(), crate::glyph::verif_kani_c09_fakeglyph::fake_glyph());
+    let mut ctx = ViewContext::dummy();
+    ctx.has_glyphs = false;
+    let s = cell.size(&ctx);
+    assert!(s.height == 1 && s.width == 3);
+    kani::cover!(true);
+    std::mem::forget(cell);
+}
